@@ -1836,6 +1836,13 @@ retry:
 				Val:  &target.SelectorExpr{X: args[0].Val, Sel: ident(name)},
 				Type: realType(lm.Type()),
 			}
+			if sig, ok := fn.Type.(*types.Signature); ok {
+				if _, ok := CheckOverloadMethod(sig); ok {
+					// candidates of an overloaded operator are matched as x.XGo_Op__N():
+					// the operand is the selector's receiver, not an argument
+					return matchFuncCall(pkg, fn, args[1:], lhs, 0)
+				}
+			}
 			return matchFuncCall(pkg, fn, args, lhs, 0)
 		}
 	case *types.Pointer:
